@@ -263,8 +263,13 @@ var c08HSpec = &HSpec{ID: "C08",
 					if th == 1 {
 						tag = "/snap1-1"
 					}
-					out = append(out, &hist.Scenario{Name: fmt.Sprintf("c08/cloneroot/%s/%s%s/N2K2U1Y3", f.name, op, tag),
-						N: 2, Init: f.init, Alphabet: []string{op}, K: 2, U: 1, Y: 3, Cfg: hist.Config{Threshold: th, Interval: th}})
+					// N2K2U1Y2 is 1.0k histories per kind, N2K2U1Y3 3.4k
+					y := 2
+					if tier == "thorough" {
+						y = 3
+					}
+					out = append(out, &hist.Scenario{Name: fmt.Sprintf("c08/cloneroot/%s/%s%s/N2K2U1Y%d", f.name, op, tag, y),
+						N: 2, Init: f.init, Alphabet: []string{op}, K: 2, U: 1, Y: y, Cfg: hist.Config{Threshold: th, Interval: th}})
 				}
 			}
 		}
@@ -313,7 +318,7 @@ func init() {
 			"(ii) Root()==Marshal() and equal presences after EVERY event of all normal-form 2-client histories (K<=2 edits, 1 undo/redo, Y<=3 syncs, snapshots never/always) through the real server; " +
 			"non-trivial = the callback had already edited when it failed (i) / concurrent edits (ii)",
 		Assume:      []string{"follow-up kinds are strided (1 of 3) for two-op bodies after a non-empty prefix"},
-		QuickBudget: 150 * time.Second,
+		QuickBudget: 300 * time.Second,
 		Run:         c08Run,
 		Reproduce:   c08Reproduce,
 		Minimise: func(f *Found) *Found {
